@@ -388,6 +388,10 @@ class BodyPartReader:
             self._at_eof = True
         if self._at_eof and await self._content.readline() != b"\r\n":
             raise ValueError("Reader did not read all the data or it is malformed")
+        if not chunk and self._b64_carry and not self._at_eof:
+            # only a partial base64 quartet has arrived so far: an empty chunk
+            # would read as the end of the part, so wait for the rest of it
+            return await self.read_chunk(size)
         return chunk
 
     def _align_base64_chunk(self, chunk: bytes, size: int) -> bytes:
@@ -411,6 +415,11 @@ class BodyPartReader:
             if chunk[cut] in _BASE64_CHARS:
                 left -= 1
         if not cut:
+            if len(chunk) < size:
+                # The stream delivered less than was asked for (a short read):
+                # keep the partial quartet and let read_chunk() fetch more.
+                self._b64_carry = chunk + self._b64_carry
+                return b""
             # No whole quartet to hand back, and carrying the lot would make
             # no progress: the caller asked for this many bytes, and a part
             # that holds no quartet within them holds none to give.
